@@ -4,7 +4,7 @@ import json, os
 root = os.path.join(os.path.dirname(os.path.dirname(os.path.abspath(__file__))), "seeded")
 print("| seed | property | change (one line) | needs to manifest | confirmed | quick check result |")
 print("|---|---|---|---|---|---|")
-for n in sorted(os.listdir(root)):
+for n in sorted((x for x in os.listdir(root) if "-" in x), key=lambda x: (x.rsplit("-", 1)[0], int(x.rsplit("-", 1)[1]) if x.rsplit("-", 1)[1].isdigit() else 0)):
     d = os.path.join(root, n)
     if not os.path.exists(os.path.join(d, "meta.json")):
         continue
@@ -14,7 +14,14 @@ for n in sorted(os.listdir(root)):
     def one(s, k=150):
         s = " ".join(str(s).split()).replace("|", "/")
         return s[:k] + ("…" if len(s) > k else "")
+    def natural(x):
+        a, b = x.rsplit("-", 1)
+        return (a, int(b)) if b.isdigit() else (a, 0)
     res = "not run"
-    if r:
+    if m.get("superseded"):
+        res = "superseded by a later repo fix: " + one(m["superseded"], 160)
+    elif r.get("error"):
+        res = "not run: " + one(r["error"], 100)
+    elif r:
         res = ("detected (VIOLATION, exit 1)" if r.get("detected") else "MISSED") + (" [no-failing-input-found only]" if r.get("no_failing_input_only") else "")
     print("| %s | %s | %s | %s | %s | %s |" % (n, m.get("property"), one(m.get("summary")), one(m.get("what_it_needs_to_manifest")), "yes" if c.get("confirmed") else "no", res))
